@@ -251,6 +251,7 @@ def row_variants(rng, X):
 
 def _new(kind, seed, spec):
     return E.History(f'{kind}-{seed}', {'driver': 'est_gen.gen_case', 'args': {'kind': kind, 'seed': seed}, 'cls': spec['cls'],
+                                        'rankings': {f: list(d['order']) for f, d in spec['features'].items() if d.get('order') is not None},
                                         'spec_summary': {'cls': spec['cls'], 'n': len(spec['y']), 'features': {f: d['kind'] for f, d in spec['features'].items()},
                                                          'params': spec['params']}})
 
@@ -563,7 +564,56 @@ def hist_c19(seed, cls=None):
     return h
 
 
-HISTS = {'c04': hist_c04, 'c05': hist_c05, 'c06': hist_c06, 'c07': hist_c07, 'c08': hist_c08, 'c16': hist_c16,
+def sorted_probe_frame(rng, o, X):
+    """a frame whose quantitative columns sweep the real line (sorted) and whose qualitative
+    columns run through the training values"""
+    import numpy as np
+    import pandas as pd
+    n = 0
+    cols = {}
+    for f in o.features:
+        rc = E.raw_column(o, f)
+        if f in o.quantitative_features:
+            bs = boundaries(o, f) or [0.0]
+            pts = set()
+            for b in bs:
+                pts |= {b, float(np.nextafter(b, np.inf)), float(np.nextafter(b, -np.inf))}
+            pts |= {min(bs) - 1.0, max(bs) + 1.0, -1.7e308, 1.7e308}
+            for a, b in zip(sorted(bs), sorted(bs)[1:]):
+                pts.add((a + b) / 2)
+            cols[rc] = sorted(pts)
+        else:
+            vals = [v for v in pd.unique(X[rc]) if not E.isnan(v)]
+            cols[rc] = vals or [X[rc].iloc[0]]
+        n = max(n, len(cols[rc]))
+    data = {}
+    for c in X.columns:
+        if c in cols:
+            v = cols[c]
+            data[c] = pd.Series([v[i % len(v)] for i in range(n)], dtype=X[c].dtype)
+        else:
+            data[c] = pd.Series([X[c].iloc[i % len(X)] for i in range(n)], dtype=X[c].dtype)
+    return pd.DataFrame(data)
+
+
+def hist_c03(seed, cls=None):
+    rng = random.Random(seed)
+    spec = random_object_spec(rng, cls or rng.choice(['BinaryCarver', 'ContinuousCarver', 'MulticlassCarver', 'Discretizer',
+                                                      'QuantitativeDiscretizer', 'QualitativeDiscretizer', 'BinaryCarver']))
+    spec['params']['output_dtype'] = 'float' if rng.random() < 0.8 else 'str'
+    o, X, y, kw = E.build(spec)
+    h = _new('c03', seed, spec)
+    if not h.fit(1, o, X, y, kw):
+        return h
+    h.transform(1, X.copy(deep=True), seen=True, label='train')
+    if h.objs[1].features:
+        h.transform(1, sorted_probe_frame(rng, h.objs[1], X), seen=False, label='sweep')
+    if rng.random() < 0.3 and h.reload(1, 2) and h.objs[2].features:
+        h.transform(2, sorted_probe_frame(rng, h.objs[2], X), seen=False, label='sweep_reloaded')
+    return h
+
+
+HISTS = {'c03': hist_c03, 'c04': hist_c04, 'c05': hist_c05, 'c06': hist_c06, 'c07': hist_c07, 'c08': hist_c08, 'c16': hist_c16,
          'c17': hist_c17, 'c19': hist_c19}
 
 
